@@ -331,8 +331,8 @@ theorem any_str_not_all_bool (l : Seq) (h : l.any Atom.isStr = true) : l.all Ato
   obtain ⟨x, hx, hxs⟩ := List.any_eq_true.mp h
   exact ⟨x, hx, by cases x <;> simp_all [Atom.isStr, Atom.isBool]⟩
 
-theorem minMaxCore_eq (isMax : Bool) (s : Seq) (ho : outsideAgg s = false) :
-    minMaxCore isMax s = Spec.minMaxCore isMax s := by
+theorem minMaxCore_eq (cl : Coll) (isMax : Bool) (s : Seq) (ho : outsideAgg s = false) :
+    minMaxCore cl isMax s = Spec.minMaxCore cl isMax s := by
   cases s with
   | nil => simp [minMaxCore, Spec.minMaxCore, outsideAgg]
   | cons a rest =>
@@ -348,7 +348,7 @@ theorem minMaxCore_eq (isMax : Bool) (s : Seq) (ho : outsideAgg s = false) :
         have hfm := strs_of_allStr _ hS
         simp only [List.map_cons] at hfm
         rw [hfm]
-        exact congrArg (fun m => Except.ok [Atom.str m]) (pyExtremum_eq (fun x y => decide (strLtSpec x y)) isMax _ _)
+        exact congrArg (fun m => Except.ok [Atom.str m]) (pyExtremum_eq (fun x y => collLt cl x y) isMax _ _)
       | false =>
         simp only [Bool.false_eq_true, if_false]
         cases hs : (a :: rest).any Atom.isStr with
@@ -556,15 +556,15 @@ theorem fnAvg_eq (doc : List String) (s : Seq) : fnAvg doc s = Spec.fnAvg foSum 
     obtain ⟨hu, hb, hn⟩ := avgItems_out _ v h1
     exact avgCore_eq v (outsideAgg_of v hu (hn (atomized_noNode doc s))) hb
 
-theorem fnMinMax_eq (doc : List String) (isMax : Bool) (s : Seq) :
-    fnMinMax doc isMax s = Spec.fnMinMax doc isMax s := by
+theorem fnMinMax_eq (cl : Coll) (doc : List String) (isMax : Bool) (s : Seq) :
+    fnMinMax cl doc isMax s = Spec.fnMinMax cl doc isMax s := by
   simp only [fnMinMax, Spec.fnMinMax, minMaxConvert_eq, map_atomize, bind]
   cases h1 : castUntyped (s.map (atomized doc)) with
   | error e => rfl
   | ok v =>
     simp only [Except.bind]
     obtain ⟨hu, hn⟩ := castUntyped_out _ v h1
-    exact minMaxCore_eq isMax v (outsideAgg_of v hu (hn (atomized_noNode doc s)))
+    exact minMaxCore_eq cl isMax v (outsideAgg_of v hu (hn (atomized_noNode doc s)))
 
 /-! ### value comparison -/
 
@@ -702,16 +702,16 @@ theorem posArg_eq (s : Seq) : posArg s = asRoundedDouble s := by
 
 /-! ### the function tables -/
 
-theorem applyFn1_eq (doc : List String) (f : Fn1) (v : Seq) :
-    applyFn1 doc f v = Spec.applyFn1 foSum doc f v := by
+theorem applyFn1_eq (cl : Coll) (doc : List String) (f : Fn1) (v : Seq) :
+    applyFn1 cl doc f v = Spec.applyFn1 foSum cl doc f v := by
   cases f <;> simp only [applyFn1, Spec.applyFn1, count_eq_length, Spec.count, isEmpty_eq, isExists_eq,
     head_eq, tail_eq, reverse_eq, Spec.reverse, zeroOrOne_eq, oneOrMore_eq, exactlyOne_eq, fnSum_eq,
     fnAvg_eq, fnMinMax_eq, distinctValues_eq, fnStringJoin_eq, ebv_eq, fnRound_eq, map_atomize]
   case not_ => cases Spec.ebv v <;> rfl
   case boolean => cases Spec.ebv v <;> rfl
 
-theorem applyFn2_eq (doc : List String) (f : Fn2) (va vb : Seq) :
-    applyFn2 doc f va vb = Spec.applyFn2 foSum doc f va vb := by
+theorem applyFn2_eq (cl : Coll) (doc : List String) (f : Fn2) (va vb : Seq) :
+    applyFn2 cl doc f va vb = Spec.applyFn2 foSum cl doc f va vb := by
   cases f <;> simp only [applyFn2, Spec.applyFn2, intArg_eq, posArg_eq, fnStringJoin_eq, fnSum_eq]
   case remove => cases asInteger vb <;> simp [bind, Except.bind, Except.map, pure, Except.pure, remove_eq]
   case indexOf => split <;> simp_all [indexOf_eq, map_atomize, atomize_eq]
